@@ -18,7 +18,7 @@ pub static HOSTILE: Scenario = Scenario {
     id: "C06",
     name: "c06-hostile-peer",
     run,
-    quick_runs: 4000,
+    quick_runs: 10_000,
     thorough_runs: 200_000,
     rule: "one run = a real Network H serving a Router, an honest prober P calling it continuously, and an admitted raw QUIC peer running a PRNG script of 5-60 hostile operations (random bytes, valid request truncated at a PRNG offset then finished/reset/abandoned, huge length prefixes in either frame, bincode headers announcing 2^64-byte strings/maps, bit flips, odd routes, stop() on the response, uni streams, datagrams, more streams than the limit, trailing garbage, abrupt close) interleaved with its own well-formed RPCs; distinct = distinct order signature (script operation kinds and outcomes); non-trivial = every run (the script always overlaps honest traffic)",
     real: super::REAL_NET,
